@@ -71,6 +71,7 @@ func checkC01(c *Ctx) {
 	borrowRule(c, "C07", "C07.ctor", "C01.ctor")
 	// the value a numeric literal denotes: converted by strconv.ParseFloat only (shared with C04)
 	borrowRule(c, "C04", "C04.numparse", "C01.literal")
+	R.Explain += " (C01.literal = C04.numparse) numeric literals are converted by strconv.ParseFloat only."
 	// the value of a numeric literal (shared with C04): ParseFloat on every path
 	checkNum2Float(c, u, "C01.literal")
 	p := u.Pkgs["pkg/syntax/zh"]
